@@ -505,6 +505,27 @@ theorem get_erase {k : Nat} {m : NMap ν} (h : WF m) (k' : Nat) :
         simp [this]
       · simp [h1]
 
+theorem wf_mapVal {μ : Type} (f : ν → μ) {m : NMap ν} (h : WF m) : WF (mapVal f m) := by
+  unfold WF mapVal at *
+  rw [List.pairwise_map]
+  exact h
+
+theorem get_mapVal {μ : Type} (f : ν → μ) (m : NMap ν) (k : Nat) :
+    get (mapVal f m) k = (get m k).map f := by
+  induction m with
+  | nil => rfl
+  | cons p m ih =>
+    simp only [mapVal, List.map_cons, get_cons]
+    split
+    · rfl
+    · exact ih
+
+theorem mem_mapVal {μ : Type} {f : ν → μ} {m : NMap ν} {q : Nat × μ} (h : q ∈ mapVal f m) :
+    ∃ p ∈ m, q = (p.1, f p.2) := by
+  simp only [mapVal, List.mem_map] at h
+  obtain ⟨p, hp, rfl⟩ := h
+  exact ⟨p, hp, rfl⟩
+
 theorem wf_ofList (l : List (Nat × ν)) : WF (ofList l) := by
   unfold ofList
   suffices ∀ (m : NMap ν), WF m → WF (l.foldl (fun m p => insert p.1 p.2 m) m) from this [] wf_nil
